@@ -5,6 +5,8 @@
  *   mode s: libdbus is the SERVER side; the raw peer authenticates as a client and the first chunk is glued to the
  *           "BEGIN\r\n" line, i.e. message bytes arrive in the same read as the end of the handshake
  *   mode c: libdbus is the CLIENT side; the raw peer plays the server and writes the stream after reading BEGIN
+ *   mode r: like s, but the accepted connection is NOT attached to a main loop: the application drives it with
+ *           dbus_connection_read_write_dispatch() (the blocking-iteration path of the transport)
  * stdout per case:  {"out":[serial,...],"disc":0|1 (the connection gave up by itself, before the peer closed),"n":<bytes written>} */
 #include <dbus/dbus.h>
 #include "test-utils.h"
@@ -24,6 +26,15 @@ static DBusConnection *conn;           /* the connection under test */
 static volatile int peer_done;
 static unsigned got[4096];
 static int ngot, disconnected;
+static int manual;                     /* mode r: the connection under test is driven by hand */
+
+static void
+drive (void)
+{
+  test_main_context_iterate (ctx, FALSE);
+  if (manual && conn)
+    dbus_connection_read_write_dispatch (conn, 0);
+}
 
 static long
 now_ms (void)
@@ -51,14 +62,15 @@ new_conn (DBusServer *s, DBusConnection *c, void *d)
   conn = dbus_connection_ref (c);
   dbus_connection_set_allow_anonymous (c, TRUE);
   dbus_connection_add_filter (c, collect, NULL, NULL);
-  test_connection_setup (ctx, c);
+  if (!manual)
+    test_connection_setup (ctx, c);
 }
 
 static void
 spin (int ms)
 {
   long t0 = now_ms ();
-  do { test_main_context_iterate (ctx, FALSE); usleep (200); } while (now_ms () - t0 < ms);
+  do { drive (); usleep (200); } while (now_ms () - t0 < ms);
 }
 
 /* spin until nothing new has been delivered for `quiet` ms (or the connection went away) */
@@ -69,7 +81,7 @@ settle (int quiet)
   long t0 = now_ms ();
   while (now_ms () - t0 < quiet)
     {
-      test_main_context_iterate (ctx, FALSE);
+      drive ();
       if (ngot != last || (conn && dbus_connection_get_dispatch_status (conn) == DBUS_DISPATCH_DATA_REMAINS))
         { last = ngot; t0 = now_ms (); }
       usleep (200);
@@ -93,7 +105,7 @@ readline_fd (int fd, char *buf, int max)
   while (n < max - 1 && now_ms () - t0 < 3000)
     {
       struct pollfd p = { fd, POLLIN, 0 };
-      test_main_context_iterate (ctx, FALSE);
+      drive ();
       if (poll (&p, 1, 1) <= 0) continue;
       if (read (fd, &c, 1) != 1) return -1;
       if (c == '\n') break;
@@ -180,7 +192,8 @@ main (void)
       n = unhex (hex, stream, sizeof stream);
       ngot = 0; disconnected = 0; conn = NULL;
       dbus_error_init (&e);
-      if (mode == 's')
+      manual = mode == 'r';
+      if (mode == 's' || mode == 'r')
         {
           DBusServer *server = dbus_server_listen ("unix:tmpdir=/tmp", &e);
           struct sockaddr_un sun;
@@ -211,7 +224,7 @@ main (void)
           dbus_free (addr);
           close (fd);
           settle (30);
-          if (conn) { test_connection_shutdown (ctx, conn); dbus_connection_close (conn); dbus_connection_unref (conn); }
+          if (conn) { if (!manual) test_connection_shutdown (ctx, conn); dbus_connection_close (conn); dbus_connection_unref (conn); }
           test_server_shutdown (ctx, server);
           dbus_server_disconnect (server);
           dbus_server_unref (server);
